@@ -48,7 +48,7 @@ func (self AnalyzedProgram) String() string {
 
 	globals := ""
 	for _, glob := range self.Globals {
-		globals += glob.String()
+		globals += glob.String() + "\n"
 	}
 	if globals != "" {
 		globals += "\n\n"
